@@ -27,11 +27,17 @@ ASSUMPTIONS = [
     "noise sections contain no line starting with permit/deny/remark",
 ]
 REQUIRED = ["acls_ok", "binding_in_and_out_on_one_interface", "members_attached", "undefined_group",
-            "filtered", "aces_ok", "addrgroups_ok", "noise_between"]
+            "filtered", "aces_ok", "addrgroups_ok", "noise_between", "options_ok", "options_grouped"]
 
 
 def _K(tier):
-    return 3 if tier == "quick" else 4
+    return 4 if tier == "quick" else 5
+
+
+# keyword options of the config-level functions that must not change what is extracted
+OPTIONS = [dict(port_nr=True), dict(protocol_nr=True), dict(port_nr=True, protocol_nr=True),
+           dict(version="15.2(4)M"), dict(version="9.3(8)"), dict(max_ncwb=30), dict(group_by="first"),
+           dict(group_by="see"), dict(group_by="zzz")]
 
 
 # ------------------------------------------------------------------------------ section alphabet
@@ -113,7 +119,8 @@ def section_text(name, platform, w):
 
 def describe(tier, seed):
     return dict(max_sections=_K(tier), sections=SECTIONS, indentation=[1, 2, 3],
-                name_filters="all subsets of {A, B, S} on arrangements of <= 2 sections")
+                name_filters="all subsets of {A, B, S} on arrangements of <= 2 sections",
+                options=OPTIONS, options_on="arrangements of <= 3 sections")
 
 
 def units(tier, seed):
@@ -121,7 +128,11 @@ def units(tier, seed):
     for plat in ("ios", "nxos"):
         out.append(dict(platform=plat, first=None))
         for a in range(len(SECTIONS)):
-            out.append(dict(platform=plat, first=a))
+            out.append(dict(platform=plat, first=a, second=None))
+        for a in range(len(SECTIONS)):
+            for b in range(len(SECTIONS)):
+                if a != b:
+                    out.append(dict(platform=plat, first=a, second=b))
     return out
 
 
@@ -134,11 +145,13 @@ def run_unit(unit, ctx):
             for w in (1, 2, 3):
                 check(plat, (a,), w, None, ctx)
         return
-    first = unit["first"]
-    rest_idx = [i for i in range(n) if i != first]
+    first, second = unit["first"], unit.get("second")
+    rest_idx = [i for i in range(n) if i not in (first, second)]
     for k in range(1, _K(ctx.tier)):
-        for rest in permutations(rest_idx, k):
-            arr = (first,) + rest
+        if (k == 1) != (second is None):
+            continue
+        for rest in permutations(rest_idx, k if second is None else k - 1):
+            arr = (first,) + rest if second is None else (first, second) + rest
             ws = (1, 2, 3) if k == 1 else ((sum(arr) % 3) + 1,)
             for w in ws:
                 check(plat, arr, w, None, ctx)
@@ -146,17 +159,28 @@ def run_unit(unit, ctx):
                 for mask in range(1, 8):
                     names = [nm for b, nm in enumerate(("A", "B", "S")) if mask >> b & 1]
                     check(plat, arr, 2, names, ctx)
+            if k <= 2:
+                for opts in OPTIONS:
+                    check(plat, arr, 2, None, ctx, opts=opts)
     ctx.sample("config", dict(platform=plat, sections=[SECTIONS[i] for i in arr]))
 
 
 def replay(case, ctx):
-    check(case["platform"], tuple(case["arr"]), case["indent"], case["names"], ctx)
+    check(case["platform"], tuple(case["arr"]), case["indent"], case["names"], ctx, opts=case.get("opts"))
 
 
 # ------------------------------------------------------------------------------------------------
 
 
-def check(platform, arr, w, names, ctx):
+def _flat(items):
+    for o in items:
+        if type(o).__name__ == "AceGroup":
+            yield from _flat(o.items)
+        else:
+            yield o
+
+
+def check(platform, arr, w, names, ctx, opts=None):
     import cisco_acl
 
     secs = [SECTIONS[i] for i in arr]
@@ -166,7 +190,7 @@ def check(platform, arr, w, names, ctx):
     config = "\n".join(texts) + "\n"
     ctx.ev()
     case = dict(kind="config", platform=platform, arr=list(arr), sections=secs, indent=w, names=names,
-                config=config)
+                config=config, opts=opts)
     # ---------------- model
     acl_names = [s for s in secs if s in ACL_BODY and (names is None or s in names)]
     defined = [s for s in secs if s in GROUPS]
@@ -180,6 +204,7 @@ def check(platform, arr, w, names, ctx):
     kw = dict(platform=platform, indent=" " * w)
     if names is not None:
         kw["names"] = [REAL[n] for n in names]
+    kw.update(opts or {})
     with capture_logs(logging.WARNING):
         try:
             got = cisco_acl.acls(config, **kw)
@@ -200,7 +225,8 @@ def check(platform, arr, w, names, ctx):
         if acl.output != sorted(outputs[nm]):
             bad["output"] = (acl.output, sorted(outputs[nm]))
         body = ACL_BODY[nm][platform]
-        lines = [o.line for o in acl.items]
+        flat_items = list(_flat(acl.items))
+        lines = [o.line for o in flat_items]
         try:
             want_items = [rd.read_line(b, want_type) for b in body]
             got_items = [rd.read_line(ln, want_type) for ln in lines]
@@ -216,7 +242,7 @@ def check(platform, arr, w, names, ctx):
                 for g, wv in zip(got_items, want_items)):
             bad["items"] = (lines, body)
         # members
-        for o, wv in zip(acl.items, want_items):
+        for o, wv in zip(flat_items, want_items):
             if isinstance(wv, Remark):
                 continue
             for side, grp in (("srcaddr", wv.src_group), ("dstaddr", wv.dst_group)):
@@ -244,6 +270,10 @@ def check(platform, arr, w, names, ctx):
                      {k: v[0] for k, v in bad.items()}, {k: v[1] for k, v in bad.items()}, kf=kf)
             return
     ctx.out("acls_ok")
+    if opts:
+        ctx.out("options_ok")
+        if "group_by" in opts and any(type(o).__name__ == "AceGroup" for a in got for o in a.items):
+            ctx.out("options_grouped")
     if names is not None:
         ctx.out("filtered")
     if "I2" in secs and ("A" in acl_names or "B" in acl_names):
@@ -252,7 +282,7 @@ def check(platform, arr, w, names, ctx):
         ctx.out("noise_between")
     if acl_names and len(secs) > len(acl_names):
         ctx.nt((platform, w, str(names), tuple(arr)))
-    if names is not None:
+    if names is not None or opts:
         return
     # ---------------- aces(): every ACL body line of the configuration in order
     with capture_logs(logging.WARNING):
